@@ -46,7 +46,8 @@ def main():
 
     if a.replay:
         rp = json.load(open(a.replay))
-        v = mod.replay(rp)
+        rmod = importlib.import_module(f"props.{rp['found_by_oracle_of']}") if rp.get('found_by_oracle_of') else mod      # failing input of an imported presupposition
+        v = rmod.replay(rp)
         if v:
             print(f'replay reproduces: {json.dumps(v, default=str)[:600]}')
             print(f'VIOLATION property={prop} replay={a.replay}')
@@ -109,6 +110,23 @@ def main():
         broken.append('oracle crashed')
         notes.append(traceback.format_exc()[-1500:])
     violations.extend(orc.get('violations', []))
+    # an IMPORTED obligation (a presupposition proved under another property) broke and this property's own oracle exhibited nothing: search with the
+    # oracle of the property the obligation belongs to -- a failing input of a presupposition is a failing input here (the theorems of this property rest on it)
+    if not violations:
+        import re as _re
+        owners = sorted({m.group(1) for b in broken for m in [_re.match(r'theorem Props/(C\d\d)/', b)] if m and m.group(1) != prop})
+        for owner in owners:
+            try:
+                omod = importlib.import_module(f'props.{owner}')
+                octx = dict(ctx, prop=owner)
+                ores = omod.oracle(octx, hints=[], broken=[b for b in broken if f'Props/{owner}/' in b])
+                for v in ores.get('violations', []):
+                    v = dict(v, presupposition_of=prop, found_by_oracle_of=owner)
+                    violations.append(v)
+                orc['evaluations'] = orc.get('evaluations', 0) + ores.get('evaluations', 0)
+                notes.append(f'imported obligation of {owner} broke: searched with the oracle of {owner} ({len(ores.get("violations", []))} violations)')
+            except Exception:
+                notes.append(f'oracle of {owner} crashed while searching for a failing input of an imported obligation: ' + traceback.format_exc()[-500:])
 
     # (5) known findings, replay files, verdict
     lines, unknown, known_hit = [], 0, []
@@ -161,7 +179,7 @@ def main():
         print('note:', n[:800])
     print(f'{prop} [{tier}] obligations {n_ok}/{n_obl}; correspondence {corr.get("evaluations", 0)} cases, '
           f'{len(corr.get("disagreements", []))} disagreements; oracle {orc.get("evaluations", 0)} cases, '
-          f'{len(orc.get("violations", []))} violations; {wall:.1f}s')
+          f'{len(violations)} violations; {wall:.1f}s')
     for l in lines:
         print(l)
     sys.exit(1 if unknown else 0)
